@@ -184,3 +184,23 @@ Proof.
   rewrite (transmit_layout f Hwf Hv) in Hb. injection Hb as <-.
   exists ef. unfold frame_event. now rewrite Hr.
 Qed.
+
+Theorem spec_frames_step i st o ops :
+  spec_frames i st (o :: ops) =
+    (match o with
+     | ETransmit src f =>
+         if is_open (st i) && match src with None => true | Some j => is_open (st j) end then [(src, f)] else []
+     | _ => []
+     end) ++ spec_frames i (stat_step st o) ops.
+Proof. destruct o as [k | k | [j |] f]; reflexivity. Qed.
+
+Theorem emu_end_to_end fs rest n :
+  Forall (fun f => wf_frame f /\ validate f = true) fs ->
+  receive_calls n (map RData (map bytes_of fs) ++ REOF :: rest) =
+    firstn n (map (fun f => frame_event (S_layout f)) fs) ++ repeat (EvStop [] zero_frame None) (n - length fs)
+  /\ Forall (fun f => bytes_of f = S_layout f /\ exists ef, frame_event (S_layout f) = EvFrame [f] f false ef) fs.
+Proof.
+  intros H. split; [exact (emu_receive_identity fs rest n H) |].
+  apply Forall_impl with (2 := H). intros f Hf.
+  exact (conj (proj1 (valid_bytes f Hf)) (valid_frame_event f Hf)).
+Qed.
